@@ -132,6 +132,16 @@ def build_unit(u, tier, wd, extra_defs=()):
     if u.get("plain"):
         return gb, "", cmds
     igb = os.path.join(wd, "u.i.gb")
+    if u.get("pre_unwindset"):
+        # a constant-bound loop AROUND a loop that carries a loop contract is unwound completely first (with its unwinding assertion), so that the
+        # contract instrumentation only sees loops that have contracts
+        pgb = os.path.join(wd, "u.p.gb")
+        cmd = ["goto-instrument"] + sum((["--unwindset", "%s:%d" % (k, v)] for k, v in u["pre_unwindset"].items()), []) + ["--unwinding-assertions", gb, pgb]
+        cmds.append(" ".join(cmd))
+        rc, out, err, _ = run(cmd, 300)
+        if rc != 0 or not os.path.exists(pgb):
+            return None, "toolchain: goto-instrument --unwindset failed: " + (out + err)[-1500:], cmds
+        gb = pgb
     cmd = ["goto-instrument", "--no-malloc-may-fail", "--dfcc", u["harness"]]
     if u.get("enforce"):
         cmd += ["--enforce-contract-rec" if u.get("enforce_rec") else "--enforce-contract", u["enforce"]]
